@@ -129,3 +129,161 @@ def push_step(crate, L=6):
     if L > 4:
         need += ["binary-search arm (len > 4)", "tie in binary-search arm"]
     return P.finish(ex, res, need)
+
+
+def _post_vec(crate, o, iref):
+    idx = o.mem[iref.cell]
+    state = idx.fields[(None, crate.field_index("IndexStruct", "inner"))]
+    data = state.fields[("InMemory", 0)].fields[(None, 7000)]
+    m2 = data.fields[(None, crate.field_index("InMemoryData", "headers"))]
+    return m2, data
+
+
+def get_latest_mem(crate, L=6):
+    """C01: IndexStruct::get_latest on an in-memory index: Found(last) / Deleted(ts(last)) / NotFound iff no vector."""
+    res = P.ObResult("get_latest_mem[L<=%d]" % L)
+    body = crate.find(r"blob::index::core::<impl at [^>]*>::get_latest::\{closure#0\}$")
+    res.functions = ["<IndexStruct as IndexTrait>::get_latest::{closure#0} (async body)", "get_latest::{closure#0}::{closure#0}",
+                     "RecordHeader::is_deleted", "RecordHeader::timestamp", "BlobRecordTimestamp::new"]
+    res.bounds = "per-key vector length <= %d" % L
+    ex = P.mk_executor(crate, cap=L, loop_bound=4, inline=INLINE_INDEX + [r"^BlobRecordTimestamp::new$"])
+    st = State()
+    iref, m, mem, v = index_struct_state(crate, ex, st, L)
+    present0 = m.fields[("m", "present")].t
+    n0 = v.len.t
+    key = st.new_cell(Obj("K"))
+    P.start_coroutine(ex, st, body, [iref, Ref(key, (), False, "&K")])
+    outs = ex.run(st)
+    res.paths = len(outs)
+    RR = crate.enums["ReadResult"]
+    for o in outs:
+        if o.status in ("infeasible", "unwind"):
+            continue
+        if o.status != "returned":
+            if not P.prove(ex, res, o, z3.BoolVal(False), "no panic (%s: %s)" % (o.status, o.note)):
+                break
+            continue
+        ready, payload = P.poll_payload(ex, o, o.result)
+        if not P.prove(ex, res, o, ready, "completes without suspension (in-memory)"):
+            break
+        rd = ex.get_discr(o, payload).t
+        if not P.prove(ex, res, o, rd == BV64(0), "returns Ok"):
+            break
+        rr = payload.fields[("Ok", 0)]
+        d = ex.get_discr(o, rr).t
+        has = z3.And(present0, z3.UGT(n0, BV64(0)))
+        last_ts, last_del, last_seq = None, None, None
+        for k in range(L - 1, -1, -1):
+            e = v.elems[k]
+            c = n0 - 1 == BV64(k)
+            ts, fl, sq = hdr(crate, e, "timestamp"), hdr(crate, e, "flags"), hdr(crate, e, "seq")
+            last_ts = ts if last_ts is None else z3.If(c, ts, last_ts)
+            last_del = (fl & 1 == 1) if last_del is None else z3.If(c, fl & 1 == 1, last_del)
+            last_seq = sq if last_seq is None else z3.If(c, sq, last_seq)
+        claims = [z3.Implies(z3.Not(has), d == BV64(RR["NotFound"])),
+                  z3.Implies(z3.And(has, last_del), d == BV64(RR["Deleted"])),
+                  z3.Implies(z3.And(has, z3.Not(last_del)), d == BV64(RR["Found"]))]
+        if not P.prove(ex, res, o, z3.And(claims), "classification = f(last element)"):
+            break
+        if ("Found", 0) in rr.fields and isinstance(rr.fields[("Found", 0)], Obj) and ("ghost", 0) in rr.fields[("Found", 0)].fields:
+            fh = rr.fields[("Found", 0)]
+            if not P.prove(ex, res, o, z3.Implies(d == BV64(RR["Found"]),
+                                                  z3.And(hdr(crate, fh, "seq") == last_seq, hdr(crate, fh, "timestamp") == last_ts)),
+                           "Found carries the last header"):
+                break
+            P.cover(ex, res, o, z3.And(d == BV64(RR["Found"]), z3.UGT(n0, BV64(2))), "found, several versions")
+        if ("Deleted", 0) in rr.fields:
+            dt = rr.fields[("Deleted", 0)]
+            tsf = dt.fields.get((None, 0)) if isinstance(dt, Obj) else dt
+            if isinstance(tsf, Sym):
+                if not P.prove(ex, res, o, z3.Implies(d == BV64(RR["Deleted"]), tsf.t == last_ts), "Deleted carries the marker's timestamp"):
+                    break
+                P.cover(ex, res, o, d == BV64(RR["Deleted"]), "deleted")
+        P.cover(ex, res, o, d == BV64(RR["NotFound"]), "not found")
+    return P.finish(ex, res, ["found, several versions", "deleted", "not found"])
+
+
+INLINE_GET_ALL = INLINE_INDEX + [r"^<IndexStruct as IndexTrait>::get_all_with_deletion_marker(::\{closure#0\}.*)?$"]
+
+
+def _expected_cut(crate, v, L):
+    """reference: reverse(v) cut after the first marker.  Returns (len_term, [elem selector per output position])."""
+    n = v.len.t
+    dels = [hdr(crate, e, "flags") & 1 == 1 for e in v.elems]
+    # output position j corresponds to input index n-1-j ; first marker position in output order
+    first = BV64(L)  # L = none
+    for j in range(L - 1, -1, -1):
+        # is output j a marker?
+        isdel = z3.BoolVal(False)
+        for k in range(L):
+            isdel = z3.If(n - 1 - BV64(j) == BV64(k), dels[k], isdel)
+        first = z3.If(z3.And(z3.ULT(BV64(j), n), isdel), BV64(j), first)
+    exp_len = z3.If(first == BV64(L), n, first + 1)
+    return exp_len, first
+
+
+def get_all_marker(crate, L=6, strip=False):
+    """C02: get_all_with_deletion_marker (strip=False) / get_all (strip=True) on an in-memory index:
+    result = newest-first list cut right after the first deletion marker (get_all: without that marker)."""
+    fn = "get_all" if strip else "get_all_with_deletion_marker"
+    res = P.ObResult("%s_mem[L<=%d]" % (fn, L))
+    body = crate.find(r"blob::index::core::<impl at [^>]*>::%s::\{closure#0\}$" % fn)
+    res.functions = ["<IndexStruct as IndexTrait>::%s::{closure#0}" % fn, "get_all_with_deletion_marker::{closure#0} + closures",
+                     "RecordHeader::is_deleted"]
+    res.bounds = "per-key vector length <= %d" % L
+    ex = P.mk_executor(crate, cap=L, loop_bound=4, inline=INLINE_GET_ALL)
+    st = State()
+    iref, m, mem, v = index_struct_state(crate, ex, st, L)
+    present0 = m.fields[("m", "present")].t
+    n0 = v.len.t
+    olds = [(hdr(crate, e, "seq"), hdr(crate, e, "timestamp"), hdr(crate, e, "flags")) for e in v.elems]
+    key = st.new_cell(Obj("K"))
+    P.start_coroutine(ex, st, body, [iref, Ref(key, (), False, "&K")])
+    outs = ex.run(st)
+    res.paths = len(outs)
+    exp_len, first = _expected_cut(crate, v, L)
+    for o in outs:
+        if o.status in ("infeasible", "unwind"):
+            continue
+        if o.status != "returned":
+            if not P.prove(ex, res, o, z3.BoolVal(False), "no panic (%s: %s)" % (o.status, o.note)):
+                break
+            continue
+        ready, payload = P.poll_payload(ex, o, o.result)
+        if not P.prove(ex, res, o, ready, "completes without suspension (in-memory)"):
+            break
+        if not P.prove(ex, res, o, ex.get_discr(o, payload).t == BV64(0), "returns Ok"):
+            break
+        out = payload.fields[("Ok", 0)]
+        if not isinstance(out, VecV):
+            res.status = "inconclusive"; res.detail = "result is not a vector: %r" % (out,); break
+        for k in range(out.cap):
+            if out.elems[k] is None:
+                out.elems[k] = P.mk_header(crate, "junk%d" % k)
+        has_marker = first != BV64(L)
+        want_len = exp_len
+        if strip:
+            want_len = z3.If(has_marker, exp_len - 1, exp_len)
+        want_len = z3.If(present0, want_len, BV64(0))
+        if not P.prove(ex, res, o, out.len.t == want_len, "length = cut after first marker%s" % (" minus marker" if strip else "")):
+            break
+        cs = []
+        for j in range(min(L, out.cap)):
+            e = out.elems[j]
+            for k in range(L):
+                cs.append(z3.Implies(z3.And(present0, z3.ULT(BV64(j), out.len.t), n0 - 1 - BV64(j) == BV64(k)),
+                                     z3.And(hdr(crate, e, "seq") == olds[k][0], hdr(crate, e, "timestamp") == olds[k][1],
+                                            hdr(crate, e, "flags") == olds[k][2])))
+        if not P.prove(ex, res, o, z3.And(cs), "element j = j-th newest header"):
+            break
+        P.cover(ex, res, o, z3.And(present0, has_marker, z3.UGT(first, BV64(0)), z3.ULT(first + 1, n0)), "marker in the middle")
+        P.cover(ex, res, o, z3.And(present0, z3.Not(has_marker), z3.UGE(n0, BV64(2))), "no marker")
+        P.cover(ex, res, o, z3.Not(present0), "absent key")
+        two = z3.Or([z3.And(z3.ULT(BV64(a), n0), z3.ULT(BV64(b), n0), olds[a][2] & 1 == 1, olds[b][2] & 1 == 1)
+                     for a in range(L) for b in range(a + 1, L)]) if L > 1 else z3.BoolVal(False)
+        P.cover(ex, res, o, z3.And(present0, two), "two markers")
+    return P.finish(ex, res, ["marker in the middle", "no marker", "absent key", "two markers"])
+
+
+def get_all_mem(crate, L=6):
+    return get_all_marker(crate, L=L, strip=True)
